@@ -293,6 +293,12 @@ func runC03(c *Ctx) {
 				}
 			}
 		}
+		if res.Final != "complete" {
+			// a run without failures in which the pipestance does not complete has skipped the rest of its jobs
+			r.violate(Violation{Kind: "property", Key: "C03:not-completed:" + normKey(finalClass(res.Final)),
+				What:  "a run in which no job fails did not complete (" + finalClass(res.Final) + "): the remaining stage jobs are never executed; " + firstLine(res.ErrMsg),
+				Input: map[string]interface{}{"program": src, "spec": cs.spec.Name, "seed": cs.spec.Seed, "error": res.ErrMsg, "history": excerpt(res.Events, 200)}})
+		}
 		if bad := monitorOnce(cs); len(bad) > 0 {
 			key := "C03:once:" + strings.Fields(bad[0])[0]
 			r.violate(Violation{Kind: "property", Key: key,
